@@ -17,6 +17,7 @@ func (pdb *pgDb) Dump(ctx context.Context, key []byte) (*db.Dumper, error) {
 	pdb.SetLanguage(nil)
 	lk, err := pdb.ToKey(ctx, key)
 	if err != nil {
+		tx.Rollback(ctx)
 		return nil, err
 	}
 	k := lk.Default
